@@ -64,6 +64,7 @@ def gen_csv(rng, n, tier, h=0):
         if t >= 0 and rng.random() < 0.15:
             # another timestamp layout, selected for printing and for reading as the API allows (two-digit years are those of 2000..2099; ISO-like order); oracle only
             out[-1]['tfmt'] = rng.choice(['2D/2M/2Y 2h:2m:2s', '2D/2M/2Y 2h:2m:2s', '4Y-2M-2D 2h:2m:2s', '2h:2m:2s 2D.2M.4Y'])
+            out[-1]['viafmt'] = rng.random() < 0.5
             if '2Y' in out[-1]['tfmt']:
                 out[-1]['T'] = [T if T >= 946684800 else T + 946684800 + 86400 * 365 * 60 for T in out[-1]['T']]
     return out
@@ -73,7 +74,9 @@ def run_csv(case):
     from tracklib.core import ObsTime
     if case.get('tfmt'):
         pf, rf = ObsTime.getPrintFormat(), ObsTime.getReadFormat()
-        ObsTime.setPrintFormat(case['tfmt']); ObsTime.setReadFormat(case['tfmt'])
+        ObsTime.setPrintFormat(case['tfmt'])
+        if not case.get('viafmt'):                   # (viafmt: the layout is named to the reader through the time_fmt entry of a format dictionary instead)
+            ObsTime.setReadFormat(case['tfmt'])
         try:
             return run_csv_(case)
         finally:
@@ -96,7 +99,11 @@ def run_csv_(case):
             open(path, 'w').write('1;2;3;01/01/2000 00:00:00\n' * 3)
     TrackWriter.writeToFile(tr, path, e, nn, u, t, case['sep'], case['h'])
     text = open(path).read()
-    back = TrackReader.readFromCsv(path, e, nn, u, t, case['sep'], h=case['h'], srid=case['srid'])
+    if case.get('tfmt') and case.get('viafmt'):
+        from tracklib.io.track_format import TrackFormat
+        back = TrackReader.readFromFile(path, TrackFormat({'ext': 'CSV', 'id_E': e, 'id_N': nn, 'id_U': u, 'id_T': t, 'separator': case['sep'], 'header': case['h'], 'srid': case['srid'], 'time_fmt': case['tfmt']}))
+    else:
+        back = TrackReader.readFromCsv(path, e, nn, u, t, case['sep'], h=case['h'], srid=case['srid'])
     os.remove(path)
     stamps = [[o.timestamp.day, o.timestamp.month, o.timestamp.year, o.timestamp.hour, o.timestamp.min, o.timestamp.sec] for o in tr]
     return {'text': text, 'stamps': stamps, 'back_stamps': [[o.timestamp.day, o.timestamp.month, o.timestamp.year, o.timestamp.hour, o.timestamp.min, o.timestamp.sec] for o in back],
